@@ -189,6 +189,7 @@ impl Sim {
             }
         };
         // a batch of approvals followed by one operation is judged as that operation
+        let orig_op: &Op = &ev.op;
         let simplified;
         let ev: &Event = match &ev.op {
             Op::Batch(ops)
@@ -232,7 +233,7 @@ impl Sim {
         }
         // oracles that need further dry-runs in the (unchanged) pre-state of a failed step
         if r.outcome.failed() && !r.injected {
-            crate::orc_guard::differential(self, ev, &sender, &pre, cov);
+            crate::orc_guard::differential(self, ev, orig_op, &sender, &pre, cov);
         }
         let out = StepOut {
             outcome_tag: r.outcome.tag(),
